@@ -7,43 +7,43 @@ CONSTANTS
   Knobs <- MCKnobs
   Timeouts <- MCTimeouts
   MIds = {1, 2}
-  MVoters = {1}
-  MLearners = {2}
+  MVoters = {1, 2}
+  MLearners = {}
   PreVoteOn = FALSE
   CheckQuorumOn = FALSE
-  MaxTerm = 2
-  MaxLog = 2
-  MaxNet = 4
-  MaxCrashes = 1
+  MaxTerm = 1
+  MaxLog = 3
+  MaxNet = 3
+  MaxCrashes = 0
   MaxProposals = 1
-  MaxDepth = 20
-  AllowDrop = FALSE
-  AllowDup = FALSE
-  AllowAsync = TRUE
-  AllowCrash = TRUE
+  MaxDepth = 60
+  AllowDrop = TRUE
+  AllowDup = TRUE
+  AllowAsync = FALSE
+  AllowCrash = FALSE
   PrintReplay = TRUE
-  Fine = TRUE
-  EagerReady = FALSE
+  Fine = FALSE
+  EagerReady = TRUE
   QuiescentTicks = TRUE
-  MaxLeaderTicks = 0
+  MaxLeaderTicks = 1
   TickNodes = {1}
-  MaxDrops = 1
+  MaxDrops = 0
   MaxTransfers = 0
   TransferTargets = {}
   MaxConf = 0
   ConfMenuIds = {}
   MaxReads = 0
   LazyApply = FALSE
-  AllowCompact = FALSE
+  AllowCompact = TRUE
   ProposeAnywhere = FALSE
   TargetPreds = {}
   DropTypes = {}
   DropTo = {}
-  DupTypes = {}
-  CompactNodes = {}
+  DupTypes = {"Snap"}
+  CompactNodes = {1}
   MaxDups = 1
-  MaxReqSnaps = 0
-  ReqSnapNodes = {}
+  MaxReqSnaps = 2
+  ReqSnapNodes = {2}
   MaxUnreach = 0
 CONSTRAINT Bound
 INVARIANT Judge
